@@ -356,6 +356,10 @@ class HistogramRegistration:
         # Cost function to minimize
         def cost(tc):
             # This is where the similarity function is calculated
+            if not np.all(np.isfinite(tc)):
+                # an optimizer that wandered off (flat similarity far from
+                # the overlap): worse than any transform
+                return np.inf
             Tv.param = tc
             return -self._eval(Tv)
 
@@ -388,7 +392,12 @@ class HistogramRegistration:
         if VERBOSE:
             print(f'Optimizing using {fmin.__name__}')
         kwargs['callback'] = callback
-        Tv.param = fmin(cost, tc0, *args, **kwargs)
+        tc = fmin(cost, tc0, *args, **kwargs)
+        if not np.all(np.isfinite(tc)):
+            # the optimizer ended on a point that is no transform at all
+            # (flat similarity): keep the initial guess
+            tc = tc0
+        Tv.param = tc
         return Tv.optimizable
 
     def explore(self, T, *args):
